@@ -50,7 +50,7 @@ DYN = {"id": dyn_id, "camel": to_camel_case, "custom": dyn_custom}
 GQL_NAME = re.compile(r"^[_A-Za-z][_0-9A-Za-z]*$")
 
 
-def class_source(k: int, fname: str, alias: Optional[str], override: bool, cal: Optional[str], generic: bool = False) -> str:
+def class_source(k: int, fname: str, alias: Optional[str], override: bool, cal: Optional[str], generic: bool = False, annotated: bool = False) -> str:
     md = []
     if alias is not None:
         md.append(f"alias({alias!r}" + ("" if override else ", override=False") + ")")
@@ -59,6 +59,9 @@ def class_source(k: int, fname: str, alias: Optional[str], override: bool, cal: 
     mds = " | ".join(md)
     deco = f"@alias(_{cal})\n" if cal else ""
     fdecl = f"    {fname}: int = field(" + (f"metadata={mds}" if mds else "") + ")"
+    if annotated and mds:
+        # the alias carried by the annotation instead of the field metadata: the same external name
+        fdecl = f"    {fname}: Annotated[int, {mds}] = field()"
     gbase = "(Generic[_TG])" if generic else ""
     ct = f"C{k}[int]" if generic else f"C{k}"
     return f'''
@@ -397,7 +400,9 @@ def check_graphql(mod, k, cfg, dyn, ext, other_ext, viol, st):
 
 
 def configs():
-    return list(itertools.product(NAMES, ALIASES, (True, False), (None, "upper", "prefix"), (False, True)))
+    base = list(itertools.product(NAMES, ALIASES, (True, False), (None, "upper", "prefix"), (False, True)))
+    # the alias given through Annotated[...] instead of field metadata (where there is an alias to give)
+    return [c + (False,) for c in base] + [c + (True,) for c in base if (c[1] is not None or not c[2]) and not c[4]]
 
 
 BATCH = 12
